@@ -881,6 +881,7 @@ def run(tier="quick", seed=0):
 
     # ---- A. every shape
     shapes = [t for n in (1, 2, 3) for t in itertools.product(range(Lmax + 1), repeat=n)]
+    vcnt = {}
     # a few 4-row shapes around the window size
     for si, lengths in enumerate(shapes):
         tot = sum(lengths)
@@ -917,7 +918,10 @@ def run(tier="quick", seed=0):
                 A = len(alph)
                 rows0 = content(lengths, alph, 0)
                 for vi in range((1 if len(lengths) < 3 or (si + w + ai) % 2 == 0 else 0) if quick else 3):
-                    view = VIEWS[(si * 5 + w * 3 + ai * 7 + vi * 5) % len(VIEWS)]
+                    # per (w, alphabet) the kinds follow each other over the shapes that are taken: every kind meets every window
+                    # and alphabet, and (16 kinds against 5 / 7 row lengths) every length of the last and the first rows
+                    vcnt[w, ai] = vcnt.get((w, ai), -1) + 1
+                    view = VIEWS[(vcnt[w, ai] + w * 3 + ai * 7 + vi * 4) % len(VIEWS)]
                     rows = view_rows(rows0, view)
                     x = si + w + vi
                     check_kmers(col, alph, rows, w, "api", render=False, view=view)
